@@ -1,4 +1,5 @@
 import CoapVerif.Model.TlsGate
+import CoapVerif.Model.PskSelect
 import CoapVerif.Spec.TlsCreds
 import CoapVerif.Util
 /- Line-protocol driver for C19.
@@ -8,6 +9,10 @@ import CoapVerif.Util
         (Coap.TlsCreds.accepts) — the spec-level expectation the observed verdict is judged against. -/
 -- DRIVER-OPS: tlsgate => Coap.Driver.TlsGate.replayStep
 -- DRIVER-OPS: dtls tls => Coap.Driver.TlsGate.specStep
+-- DRIVER-OPS: pskreplay => Coap.Driver.TlsGate.pskReplayStep
+/- `pskreplay <configuration words> :: <ses | pch:<name> | psk:<identity>> …`  replays the server-side credential callbacks
+        OBSERVED by harness/dtls.c (trampolines around libcoap's post_client_hello_gnutls_psk / psk_server_callback) through M
+        (Coap.PskSelect, the SNI cache threaded through the whole scenario) and prints, next to it, what S says for each. -/
 namespace Coap.Driver.TlsGate
 open Coap Coap.TlsGate
 
@@ -53,7 +58,8 @@ def showState : Option Sess → String
   | some s =>
     if s.freed then "gone"
     else s!"st={s.state.toNat},tls={b01 s.tls},dq={s.delayq.length},ca={s.conActive},if={s.inflight.length}" ++
-      (if s.proto = .tls then s!",df={b01 s.doingFirst}" else "")
+      (if s.proto = .tls then s!",df={b01 s.doingFirst}" else "") ++
+      (if s.blockMode then ",lg=" ++ (if s.lgCrcv.isEmpty then "-" else String.intercalate "." (s.lgCrcv.map (·.tok))) else "")
 
 def parseKind : String → Option Nat
   | "C" => some 0 | "N" => some 1 | "A" => some 2 | "R" => some 3 | _ => none
@@ -100,16 +106,22 @@ def parseOrc (s : String) : Option Orc :=
 def parseOrcs (s : String) : Option (List Orc) :=
   if s = "-" then some [] else (s.splitOn ",").mapM parseOrc
 
+/-- the sessions of a scenario: c = the client session, s = the server session for it, t = the server session for the
+other (injecting) address; p / r = an EARLIER client session against the same server context and its server session
+(`pre=` scenarios: one at a time, each gone before the next is made) -/
 structure Tab where
   c : Option Sess := none
   s : Option Sess := none
   t : Option Sess := none
+  p : Option Sess := none
+  r : Option Sess := none
 
 def Tab.get (tb : Tab) : String → Option Sess
-  | "c" => tb.c | "s" => tb.s | _ => tb.t
+  | "c" => tb.c | "s" => tb.s | "p" => tb.p | "r" => tb.r | _ => tb.t
 def Tab.set (tb : Tab) (w : String) (x : Option Sess) : Tab :=
   match w with
-  | "c" => { tb with c := x } | "s" => { tb with s := x } | _ => { tb with t := x }
+  | "c" => { tb with c := x } | "s" => { tb with s := x } | "p" => { tb with p := x } | "r" => { tb with r := x }
+  | _ => { tb with t := x }
 
 def parseDgKind : String → Option DgKind
   | "hello" => some .hello | "short" => some .short | "cid" => some .cid | "other" => some .other | _ => none
@@ -123,18 +135,24 @@ def runEvent (tb : Tab) (who : String) (ev : List String) (orc : List Orc) : Opt
     | none => some (none, [], orc.length, [])
   match ev with
   | ["new"] => let c := newClientCtx orc; some (some c.s, c.out, c.orc.length, [])
+  | ["newb"] => let c := newClientCtx orc true; some (some c.s, c.out, c.orc.length, [])      -- context with COAP_BLOCK_USE_LIBCOAP
   | ["new", "fail"] => some (none, [], orc.length, [])
   | ["send", km, tok] =>
+    -- C / N: Confirmable / Non-confirmable GET; O / M: the same with an Observe option
     match km.toList with
     | k :: m =>
       match (String.ofList m).toNat? with
-      | some mid => if k = 'C' ∨ k = 'N' then viaStep (.appSend (k = 'C') 1 mid tok) else none
+      | some mid =>
+        if k = 'C' ∨ k = 'N' ∨ k = 'O' ∨ k = 'M' then viaStep (.appSendL (k = 'C' ∨ k = 'O') (k = 'O' ∨ k = 'M') 1 mid tok) else none
       | none => none
     | [] => none
+  | ["lgx", keep] => viaStep (.lgExpire (if keep = "-" then [] else keep.splitOn "."))
   | ["dg"] => viaStep .dgram
   -- TLS over TCP (harness/tls.c)
   | ["tnew", "now"] => let c := newClientTlsCtx true orc; some (some c.s, c.out, c.orc.length, [])
   | ["tnew", "prog"] => let c := newClientTlsCtx false orc; some (some c.s, c.out, c.orc.length, [])
+  | ["tnewb", "now"] => let c := newClientTlsCtx true orc true; some (some c.s, c.out, c.orc.length, [])
+  | ["tnewb", "prog"] => let c := newClientTlsCtx false orc true; some (some c.s, c.out, c.orc.length, [])
   | ["tnew", "fail"] => some (none, [], orc.length, [])
   | ["tsend", km, tok] =>
     match (String.ofList (km.toList.drop 1)).toNat? with
@@ -198,7 +216,7 @@ def replayAll : List String → Tab → List String → Option (List String)
     | [head, orcS] =>
       match head.splitOn ":", parseOrcs orcS with
       | who :: ev, some orc =>
-        if who ≠ "c" ∧ who ≠ "s" ∧ who ≠ "t" then none else
+        if who ≠ "c" ∧ who ≠ "s" ∧ who ≠ "t" ∧ who ≠ "p" ∧ who ≠ "r" then none else
         match runEvent tb who ev orc with
         | some (s', outs, left, notes) =>
           let os := outs.filterMap showOut ++ notes ++ (if left > 0 then ["!unused" ++ toString left] else [])
@@ -219,6 +237,7 @@ open Coap.TlsCreds in
 def parseCfg : List String → Cfg → Option Cfg
   | [], cfg => some cfg
   | w :: rest, cfg =>
+    if w.startsWith "pre=" then parseCfg rest cfg else       -- (its value contains '=': read by `parsePre`)
     match w.splitOn "=" with
     | [k, v] =>
       let hx (s : String) : String := if s = "-" ∨ s = "e" then "" else s
@@ -243,16 +262,68 @@ def parseCfg : List String → Cfg → Option Cfg
       | "conn" => parseCfg rest cfg
       | "acc" => parseCfg rest cfg
       | "wait" => parseCfg rest cfg
+      | "bm" => parseCfg rest cfg
+      | "tt" => parseCfg rest cfg
       | _ => none
     | _ => none
+
+/-- `pre=<K>:<I>:<S>,…`: the credentials of the EARLIER clients ('=' = as the main client; S '-' = no server name) -/
+def parsePre (args : List String) (cfg : Coap.TlsCreds.Cfg) : Option (List Coap.TlsCreds.Cfg) :=
+  match args.find? (·.startsWith "pre=") with
+  | none => some []
+  | some w =>
+    let v := String.ofList (w.toList.drop 4)
+    if v = "-" then some [] else
+    (v.splitOn ",").mapM fun e =>
+      match e.splitOn ":" with
+      | [k, i, s] =>
+        some { cfg with ck := if k = "=" then cfg.ck else (if k = "-" ∨ k = "e" then "" else k),
+                        ci := if i = "=" then cfg.ci else (if i = "-" ∨ i = "e" then "" else i),
+                        sni := if s = "=" then cfg.sni else if s = "-" then none else some s }
+      | _ => none
+
+def showVerdict : Coap.TlsCreds.Verdict → String
+  | .ok => "ok" | .fail => "fail" | .nosession => "nosession"
 
 def specStep (args : List String) : String :=
   match parseCfg args {} with
   | some cfg =>
-    match Coap.TlsCreds.accepts cfg with
-    | .ok => "M expect=ok"
-    | .fail => "M expect=fail"
-    | .nosession => "M expect=nosession"
+    match parsePre args cfg with
+    | some [] => "M expect=" ++ showVerdict (Coap.TlsCreds.accepts cfg)
+    | some pres => "M expect=" ++ showVerdict (Coap.TlsCreds.accepts cfg) ++ " pre=" ++
+        String.intercalate "," (pres.map fun c => showVerdict (Coap.TlsCreds.accepts c))
+    | none => "bad-op"
+  | none => "bad-op"
+
+/-! ### M / S: the server-side credential callbacks -/
+open Coap.PskSelect in
+def pskReplay (cfg : Coap.TlsCreds.Cfg) : List String → Cache → SessPsk → String → List String → List String → Option (List String × List String)
+  | [], _, _, _, am, as => some (am.reverse, as.reverse)
+  | e :: rest, cache, sp, name, am, as =>
+    let srv : SrvCfg := { defKey := cfg.sk, defHint := cfg.sh, idTab := cfg.st, sniTab := cfg.ss }
+    match e.splitOn ":" with
+    | ["ses"] => pskReplay cfg rest cache {} "" ("ses" :: am) ("ses" :: as)
+    | ["pch", n] =>
+      let nm := if n = "-" ∨ n = "e" then "" else n
+      let (cache', sp', ok) := postClientHello srv cache sp nm
+      let sOk := (Coap.TlsCreds.served cfg nm).isSome
+      pskReplay cfg rest cache' sp' nm (s!"pch:{n}:{if ok then "ok" else "fail"}" :: am) (s!"pch:{n}:{if sOk then "ok" else "fail"}" :: as)
+    | ["psk", i] =>
+      let idn := if i = "e" then "" else i
+      let (sp', k) := pskServerCallback srv sp idn
+      let showK : Option String → String
+        | none => "fail" | some k => if k = "" then "e" else k
+      pskReplay cfg rest cache sp' name (s!"psk:{i}:{showK k}" :: am) (s!"psk:{i}:{showK (Coap.TlsCreds.serverKey cfg name idn)}" :: as)
+    | _ => none
+
+def pskReplayStep (args : List String) : String :=
+  let cfgW := args.takeWhile (· ≠ "::")
+  let evs := (args.dropWhile (· ≠ "::")).drop 1
+  match parseCfg cfgW {} with
+  | some cfg =>
+    match pskReplay cfg evs [] {} "" [] [] with
+    | some (m, s) => "M " ++ (if m.isEmpty then "-" else String.intercalate " " m) ++ " | S " ++ (if s.isEmpty then "-" else String.intercalate " " s)
+    | none => "bad-op"
   | none => "bad-op"
 
 end Coap.Driver.TlsGate
